@@ -111,6 +111,12 @@ CHECKS = {
    design_ref="DESIGN.md section 6 C18",
    note=COMMON_NOTE + "Hand-modelled: Model/PskIdeal.v. Collision-freeness of the KDF is a hypothesis (section variable). Defect F9 (foreign-group resumption PSK served from this group's unwritten epochs) repaired (fix: 02b5e24c).",
    technique="Coq proof (injectivity of the PSK chain under ideal KDF; resolution model) + PSK-knowledge differential"),
+ "C07": dict(
+   category="proof",
+   text="Coq theorems (Props/C07.v): the joiner's key package store - the package used is deleted by the first write of the new group and only then, a last-resort package stays, other packages are untouched, a Welcome for a package that is not in the store produces no group, hence single use; the path secret handed to a joiner sits at the common ancestor with the committer (same ancestor there, different ones below) and update_secrets fills exactly the joiner's keys (PrivOK). Tie / oracle: every joiner of generated histories (Welcome with the tree in the extension or out of band, several joiners per commit, interior free slots, with / without path, encrypted / public handshake; external commits) is compared field by field with the members right after joining, sends and commits at once; its key package store before / after the first write equals the store model evaluated in Coq; Welcomes for another key package, with a wrong tree, external commits from a stale GroupInfo produce no accepted group. KNOWN FINDING F10: re-joining with the stored state of an earlier membership (next commit refused with InvalidEpoch).",
+   design_ref="DESIGN.md section 6 C07",
+   note=COMMON_NOTE + "Hand-modelled: Model/Join.v, Model/Priv.v. That the joiner's group state equals the members' is decided on the implementation (no separate theorem beyond the key positions); PSK joiners are C18.",
+   technique="Coq proof (key package store, joiner key positions) + joiner-vs-member differential"),
 }
 NOT_YET = {}
 props = [json.loads(l) for l in open(os.path.join(V, "properties.jsonl"))]
